@@ -1,6 +1,7 @@
 /-
 Prelude of the Rust-to-Lean translator for `DoubleArrayAhoCorasickBuilder::build_double_array`
-(src/bytewise/builder.rs, translated by tools/dbl2lean.py).  Hand-written; trusted base of the tie
+(src/bytewise/builder.rs) and `CharwiseDoubleArrayAhoCorasickBuilder::build_double_array`
+(src/charwise/builder.rs; see the section "Char-wise builder" below), translated by tools/dbl2lean.py.  Hand-written; trusted base of the tie
 together with the translation rules in the header of tools/dbl2lean.py.
 
  * The byte-wise `State` is the model record `St`; its setters write the fields
@@ -26,6 +27,50 @@ def St.set_fail (s : St) (x : Nat) : St := { s with fail := x }
 /-- `State::set_output_pos(x)` (byte-wise): `x.map_or(0, NonZeroU32::get)` must fit `U24`. -/
 def St.set_output_pos (s : St) (x : Option Nat) : Except BuildErr St :=
   if x.getD 0 ≤ Gen.u24Max then .ok { s with opos := x.getD 0 } else .error .automatonScale
+
+/-! ### Char-wise builder (`CharwiseDoubleArrayAhoCorasickBuilder::build_double_array`, src/charwise/builder.rs)
+
+ * The char-wise `State` is the same model record `St` (`base : Option<NonZeroU32>` with `None = 0`,
+   `output_pos : Option<NonZeroU32>` with `None = 0`); its setters write the fields and none of them fails.
+ * `CodeMapper` is the model record `Mapper` (`table`, `alphaSize`); `CodeMapper.get` below is, textually,
+   the definition tools/rs2lean.py generates from src/charwise/mapper.rs into Gen/SearchC.lean with
+   `self.table` for `self.mapTable` (tools/dbl2lean.py compares the two texts on every run).
+ * `slice::sort_by(|(c1, _), (c2, _)| c1.cmp(c2))` is a STABLE sort by the first component: `sortByFst`
+   is the stable insertion sort (each element is inserted, from the last to the first, in front of the
+   first element whose key is not smaller).  The model (`edgeCodes .charwise`, `insertByCodeP`) inserts
+   behind equal keys instead; the two agree on lists with pairwise distinct keys, which is what
+   Proofs/TieDC.lean proves (`sortByFst_map_eq`) and uses. -/
+
+/-- `State::set_check(x)` (char-wise) -/
+def StC.set_check (s : St) (x : Nat) : St := { s with check := x }
+
+/-- `State::set_base(x)` (char-wise; `Some(x)`, `x : NonZeroU32`) -/
+def StC.set_base (s : St) (x : Nat) : St := { s with base := x }
+
+/-- `State::set_fail(x)` (char-wise) -/
+def StC.set_fail (s : St) (x : Nat) : St := { s with fail := x }
+
+/-- `State::set_output_pos(x)` (char-wise): stores the `Option<NonZeroU32>`, `None` is `0`. -/
+def StC.set_output_pos (s : St) (x : Option Nat) : St := { s with opos := x.getD 0 }
+
+/-- `CodeMapper::get` (src/charwise/mapper.rs), on the model's `Mapper`. -/
+def CodeMapper.get (self : Mapper) (c : Nat) : Option Nat :=
+  match self.table[c]? with
+  | none =>
+    none
+  | some code =>
+    if (decide (code ≠ Gen.invalidCode)) then
+      (some code)
+    else
+      none
+
+/-- Insertion in front of the first element whose first component is not smaller. -/
+def insertByFst (x : Nat × Nat) : List (Nat × Nat) → List (Nat × Nat)
+  | [] => [x]
+  | y :: r => if x.1 ≤ y.1 then x :: y :: r else y :: insertByFst x r
+
+/-- `v.sort_by(|(c1, _), (c2, _)| c1.cmp(c2))`: stable insertion sort by the first component. -/
+def sortByFst (l : List (Nat × Nat)) : List (Nat × Nat) := l.foldr insertByFst []
 
 /-- `vec.iter().enumerate()` -/
 def enumerateA {α : Type} (a : Array α) : List (Nat × α) := Rs.enumerate a.toList
